@@ -860,7 +860,20 @@ pub fn gen_c15(seed: u64, thorough: bool) -> Case {
 /// The case a seed expands to for a property's default workload mix.
 pub fn gen(prop: &str, seed: u64, thorough: bool) -> Case {
     match prop {
-        "C14" => gen_session("C14", seed, 0, true),
+        "C14" => {
+            if seed % 16 == 15 {
+                // base session for a systematic single-preemption sweep
+                let mut c = gen_session("C14", seed, 0, true);
+                c.family = "session-mix/single-preemption-sweep".into();
+                c.tags.push("preempt1".into());
+                c.params.policy = Policy::Np;
+                c.params.fair = 400;
+                c.params.oversleep_max = 0;
+                c
+            } else {
+                gen_session("C14", seed, 0, true)
+            }
+        }
         "C06" | "C18" => match seed % 10 {
             0..=3 => gen_session(prop, seed, 1, true),
             4 => gen_session(prop, seed, 1, false),
